@@ -115,10 +115,10 @@ Qed.
 Theorem read_file_twf input fails f s : read_file input fails = POk f s -> file_twf f.
 Proof.
   intros E. unfold read_file in E.
-  pose proof (top_loop_twf (2 * (length input + 3) + 8)
+  pose proof (top_loop_twf (2 * (length input + margin) + 8)
     {| structs := []; messages := []; enums := []; unions := []; consts := []; imports := []; gopackage := [] |} [] 0%N false false
     ltac:(split; [|split]; constructor)) as H.
-  specialize (H {| rs := next_results (length input + 3)
+  specialize (H {| rs := next_results (length input + margin)
                       {| buf := {| rest := input; lastByte := None; lastRune := None; failing := fails |}; errs := [] |};
                    cur := tok0; keep := false; perrs := [] |}).
   rewrite E in H. exact H.
